@@ -26,13 +26,13 @@ def normalise(case):
     if case.get('kind') in ('sched', 'sweep', 'dfs'):
         return c07.normalise(case)
     return schedgen.normalise(case)
-BUDGET = {'quick': 100, 'thorough': 1500}
+BUDGET = {'quick': 160, 'thorough': 1500}
 
 
 def parts(tier):
     T = (tier == 'thorough')      # thorough: larger layouts, longer histories
     return [
-        Part('continuous', schedgen.histories(max_ops=40 if not T else 80, big=T), quick=200, thorough=1000),
+        Part('executor_noop', c07.schedules(spawner='NOOP'), quick=80, thorough=600),
         Part('jsrun', schedgen.histories(max_ops=25 if not T else 50, big=T, cls='jsrun', app=False), quick=40, thorough=200),
         Part('jsrun_blocked_resources', schedgen.histories(max_ops=25 if not T else 50, big=T, cls='jsrun', app=False,
                                                            blocked_focus=True), quick=40, thorough=300),
@@ -42,7 +42,7 @@ def parts(tier):
         # way it ends (C07's engine, C03 clauses of its oracle)
         Part('executor', c07.schedules(), quick=150, thorough=1200),
         Part('executor_sweep', enum=c07.sweep_cases),
-        Part('executor_noop', c07.schedules(spawner='NOOP'), quick=80, thorough=600),
+        Part('continuous', schedgen.histories(max_ops=40 if not T else 80, big=T), quick=200, thorough=1000),
     ]
 
 
